@@ -66,6 +66,11 @@ def run(beh, variant=0):
     qname = setup
     if setup == "multi-root" and variant % 2 == 1:
         qname = "multi-root-fragment"
+    # gamma: the root field under an alias - a fresh name, or the NAME OF A SIBLING subscription field (whose own subscription
+    # resolver must then not be consulted): the response key changes, nothing else
+    rkey = "ev"
+    if setup in ("ok-sync", "ok-async") and variant % 3 != 0:
+        rkey = "other" if variant % 3 == 1 else "al"
     loop = asyncio.new_event_loop()
     try:
         schema = build_schema(SDL)
@@ -88,7 +93,10 @@ def run(beh, variant=0):
             return src
         sub = schema.get_type("Subscription")
         sub.field_map["ev"].subscription_resolver = sub_async if setup == "ok-async" else sub_sync
-        sub.field_map["other"].subscription_resolver = sub_sync
+        def sub_other(root, ctx, info, **kw):
+            sub_calls.append("other")
+            return src
+        sub.field_map["other"].subscription_resolver = sub_other
         sub.field_map["ev"].resolver = lambda root, ctx, info: root
         schema.get_type("I").resolve_type = lambda v, ctx, info: v["e"]["ty"]
 
@@ -120,7 +128,7 @@ def run(beh, variant=0):
             ty.field_map["b"].resolver = res_b
             ty.field_map["x"].resolver = res_x
         rt = BlockingRuntime() if setup == "no-stream-runtime" else AsyncIORuntime(loop=loop, execute_blocking_functions_in_thread=False)
-        doc = parse(QUERIES[qname])
+        doc = parse(QUERIES[qname] if rkey == "ev" else QUERIES[qname].replace("{ ev {", "{ %s: ev {" % rkey))
         stream = None
         tasks = {}
         div = []
@@ -138,6 +146,9 @@ def run(beh, variant=0):
                         stream = t.result()
                     else:
                         stream = aw
+                    want = ["other", "other"] if setup == "multi-root" else [] if setup not in ("ok-sync", "ok-async", "multi-root") else ["async" if setup == "ok-async" else "sync"]
+                    if act == "subscribed" and sub_calls != want:
+                        div.append(("sub/wrong-subscription-resolver/%s" % ("alias" if rkey != "ev" else "plain"), {"called": list(sub_calls), "expected": want, "query": QUERIES[qname], "root_key": rkey}))
                     if act == "refused":
                         # a lazily refusing implementation must at least not consume: probe one pull
                         return [("sub/not-refused/%s" % qname, {"source_calls": src.calls})]
@@ -190,12 +201,12 @@ def run(beh, variant=0):
                     return div + [("sub/pull-raises/%s" % type(t.exception()).__name__, {"event": k, "error": repr(t.exception())})]
                 res = t.result()
                 d = exp["data"]
-                xdata = {"ev": {"a": (10 + k) if d["a"] == "val" else None, "b": (20 + k) if d["b"] == "val" else None, "x": d["x"]}}
+                xdata = {rkey: {"a": (10 + k) if d["a"] == "val" else None, "b": (20 + k) if d["b"] == "val" else None, "x": d["x"]}}
                 got = _plain(res.data)
                 if got != xdata:
-                    what = "x" if (got or {}).get("ev", {}).get("x") != d["x"] else "ab"
+                    what = "x" if ((got or {}).get(rkey) or {}).get("x") != d["x"] else "ab"
                     div.append(("sub/data/%s" % what, {"event": k, "expected": xdata, "got": got}))
-                xerr = sorted(("ev", ff) for ff in exp["errs"])
+                xerr = sorted((rkey, ff) for ff in exp["errs"])
                 gerr = sorted(tuple(e.path) if getattr(e, "path", None) else ("?",) for e in (res.errors or []))
                 if gerr != xerr:
                     kind = "leak-or-extra" if len(gerr) > len(xerr) else "missing"
